@@ -94,7 +94,10 @@ def run_impl(u, h, pids=None, fmts=None, after=None):
     out = []
     try:
         for c in h:
-            r = im.call(c)
+            r = _guarded(im, c)
+            if r == "exn:HANG":
+                out.append((r, im.state(), {}))
+                break                 # the call does not return (e.g. waits for an identifier a previous call left locked)
             st = im.state()
             ll = {k: v for k, v in locked_lists(im.hs).items() if v} if hasattr(im.hs, "object_locked_pids_th") else {}
             out.append((r, st, ll))
@@ -103,6 +106,16 @@ def run_impl(u, h, pids=None, fmts=None, after=None):
     finally:
         im.close()
     return out
+
+
+def _guarded(im, c, timeout=15.0):
+    """im.call(c) under a watchdog: a sequential history has no business blocking"""
+    import threading
+    box = []
+    t = threading.Thread(target=lambda: box.append(im.call(c)), daemon=True)
+    t.start()
+    t.join(timeout)
+    return box[0] if box else "exn:HANG"
 
 
 def parse_states(line):
